@@ -9,6 +9,7 @@ package pccm
 // are needed. Proofs are produced with trie.Prove, i.e. exactly what eth_getProof returns.
 
 import (
+	"crypto/ecdsa"
 	"encoding/hex"
 	"encoding/json"
 	"fmt"
@@ -20,6 +21,7 @@ import (
 	"github.com/ethereum/go-ethereum/ethdb/memorydb"
 	"github.com/ethereum/go-ethereum/rlp"
 	"github.com/ethereum/go-ethereum/trie"
+	hsquorum "github.com/polynetwork/poly/native/service/header_sync/quorum"
 )
 
 const evmGenesisHeight = 100
@@ -33,6 +35,7 @@ type evmChain struct {
 	slotKey     []ecommon.Hash
 	header      *types.Header
 	balance     *big.Int
+	qHeaders    map[int][]byte
 }
 
 type evmAccount struct {
@@ -121,6 +124,16 @@ func (c *evmChain) genesisPayload(router uint64) []byte {
 	if router == rETH {
 		return hj
 	}
+	if router == rQUORUM { // Istanbul genesis: the validator set is read from the header's extra data
+		g := *c.header
+		g.MixDigest = hsquorum.IstanbulDigest
+		g.Extra = istanbulExtra(quorumValidators(), nil, nil)
+		qj, err := g.MarshalJSON()
+		if err != nil {
+			panic(err)
+		}
+		return qj
+	}
 	type hv struct {
 		Height     *big.Int
 		Validators []ecommon.Address
@@ -158,5 +171,44 @@ func (c *evmChain) proofJSON(i int) []byte {
 		StorageProofs: []sp{{Key: c.slotKey[i].Hex(), Value: "0x0", Proof: c.slotProof[i]}},
 	}
 	b, _ := json.Marshal(&p)
+	return b
+}
+
+// ---------------------------------------------------------------------------------------------
+// quorum (Istanbul BFT): four validators; a block header is sealed by validator 0 and carries the
+// committed seals of validators 1 and 2 (more than F = 1)
+
+func quorumValidators() []ecommon.Address {
+	var a []ecommon.Address
+	for i := 0; i < 4; i++ {
+		a = append(a, crypto.PubkeyToAddress(c23QKey(i).PublicKey))
+	}
+	return a
+}
+
+// quorumHeader returns the JSON of a sealed header carrying the chain's state root.
+// variant 0: honest; 1: proposer seal by an outsider; 2: number below the validator epoch height.
+func (c *evmChain) quorumHeader(variant int) []byte {
+	if b, ok := c.qHeaders[variant]; ok {
+		return b
+	}
+	h := *c.header
+	h.Number = big.NewInt(evmGenesisHeight + 7)
+	proposer := c23QKey(0)
+	switch variant {
+	case 1:
+		proposer = c23QKey(100)
+	case 2:
+		h.Number = big.NewInt(evmGenesisHeight - 1)
+	}
+	sealed := sealedQuorumHeader(&h, quorumValidators(), proposer, []*ecdsa.PrivateKey{c23QKey(1), c23QKey(2)})
+	b, err := sealed.MarshalJSON()
+	if err != nil {
+		panic(err)
+	}
+	if c.qHeaders == nil {
+		c.qHeaders = map[int][]byte{}
+	}
+	c.qHeaders[variant] = b
 	return b
 }
